@@ -43,10 +43,11 @@ const (
 	KJoin
 	KChanLen
 	KQuiesce
+	KAccess
 )
 
 var kindNames = [...]string{"start", "lock", "unlock", "rlock", "runlock", "cond.wait", "cond.wake", "signal", "broadcast",
-	"once", "wg.add", "wg.wait", "atomic", "send", "recv", "close", "select", "cancel", "ctx.err", "sleep", "pool", "map", "yield", "join", "chan.len", "quiesce"}
+	"once", "wg.add", "wg.wait", "atomic", "send", "recv", "close", "select", "cancel", "ctx.err", "sleep", "pool", "map", "yield", "join", "chan.len", "quiesce", "access"}
 
 func (k Kind) String() string { return kindNames[k] }
 
@@ -109,6 +110,10 @@ type RaceInfo struct {
 	Addr      uintptr
 	A, B      string // "W site" / "R site"
 	Signature string
+	// SiteA, SiteB: "function(file:line)" of the two accesses; LibA, LibB: the
+	// access is in library code.
+	SiteA, SiteB string
+	LibA, LibB   bool
 	// Lib: both accesses are in library code (not in the harness or in a user
 	// function the harness handed to the library).
 	Lib bool
@@ -156,6 +161,12 @@ type Exec struct {
 	objList    []*Obj
 	quiet      bool // a spin cycle (or true quiescence) lets Quiesce() proceed
 	nondet     string
+	// racySites: plain accesses at these source sites (library code found racing in an
+	// earlier pass over the same instance) are scheduling points; racyPC caches
+	// the per-pc decision.
+	racySites map[string]bool
+	racyPC    map[uintptr]bool
+	racyFound map[string]bool // library sites seen in a race during this execution
 	freezeOn   bool // offer the freeze deviation at scheduling points
 	nfrozen    int
 	frozeAt    int // step of the oldest outstanding freeze
